@@ -71,11 +71,14 @@ def gen_source(rng, specs):
     for i, (fk, kinds, long_names) in enumerate(specs):
         plist, pm = param_list(rng, kinds if fk != "property" else (), long_names)
         name = "f%d" % i
+        # a third of the module-level functions sit behind a synchronous decorator that uses functools.wraps: the traced function
+        # is the one inside (its kind of `def`, its parameters)
+        deco = "@_deco\n" if (fk == "async" or rng.random() < 0.34) else ""
         if fk == "function":
-            top.append("def %s(%s):\n    return 1\n" % (name, plist))
+            top.append(deco + "def %s(%s):\n    return 1\n" % (name, plist))
             metas.append({"qual": name, "fkind": fk, "params": pm})
         elif fk == "async":
-            top.append("async def %s(%s):\n    return 1\n" % (name, plist))
+            top.append(deco + "async def %s(%s):\n    return 1\n" % (name, plist))
             metas.append({"qual": name, "fkind": fk, "params": pm})
         elif fk == "generator":
             top.append("def %s(%s):\n    yield 1\n" % (name, plist))
@@ -108,8 +111,9 @@ def gen_source(rng, specs):
                "    return {}\n")
     metas.append({"qual": "tv", "fkind": "function",
                   "params": [("a", "posOrKw", False), ("b", "posOrKw", False), ("c", "posOrKw", True), ("d", "kwOnly", True)]})
-    src = ("from typing import Callable, Iterable, Mapping, Sequence, Type, TypeVar\n\n_T = TypeVar('_T')\n"
-           "_T_co = TypeVar('_T_co', covariant=True)\n\n\n")
+    src = ("import functools\nfrom typing import Callable, Iterable, Mapping, Sequence, Type, TypeVar\n\n_T = TypeVar('_T')\n"
+           "_T_co = TypeVar('_T_co', covariant=True)\n\n\n"
+           "def _deco(f):\n    @functools.wraps(f)\n    def wrapper(*a, **k):\n        return f(*a, **k)\n    return wrapper\n\n\n")
     src += "\n\n".join(top) + "\n\n"
     src += "class K:\n" + ("\n".join(cls_k) if cls_k else "    pass\n") + "\n\n"
     src += "class Outer:\n    class Inner:\n" + ("\n".join(cls_outer_inner) if cls_outer_inner else "        pass\n") + "\n"
@@ -225,6 +229,7 @@ def run(pid, tier, seed):
                 for part in m["qual"].split("."):
                     obj = inspect.getattr_static(obj, part) if isinstance(obj, type) else getattr(obj, part)
                 func = obj.__func__ if isinstance(obj, (classmethod, staticmethod)) else (obj.fget if isinstance(obj, property) else obj)
+                func = inspect.unwrap(func)          # the function whose code ran, not a functools.wraps wrapper around it
                 m["func"] = func
                 args = {p[0]: chk.rng.choice(trace_types) for p in m["params"] if p[1] not in ("recv",)}
                 if m["params"] and m["params"][0][1] == "recv":
@@ -236,8 +241,17 @@ def run(pid, tier, seed):
                     args = dict({m["params"][0][0]: owner if m["params"][0][0] == "self" else typing.Type[owner]}, **args)
                 traces.append(CallTrace(func, args, chk.rng.choice(trace_types),
                                         chk.rng.choice(trace_types) if m["fkind"] in ("generator", "generator_method") else None))
+            if (ci // chunk) % 2 == 1:
+                # every other module: the traces as `stub` gets them - encoded, stored as rows, decoded (the function is looked up
+                # again by module and qualified name)
+                from monkeytype.encoding import CallTraceRow
+                try:
+                    traces = [CallTraceRow.from_trace(t).to_trace() for t in traces]
+                except Exception as e:
+                    chk.fail("error", {"module": name, "error": "round trip through the store's row format: " + repr(e)[:300]})
+                    continue
             chk.evaluations += 1
-            case = {"module": name, "traced": [m["qual"] for m in traced]}
+            case = {"module": name, "traced": [m["qual"] for m in traced], "through_rows": (ci // chunk) % 2 == 1}
             try:
                 # one build for this module and the previous one: both have classes `K` and `Outer.Inner`
                 joint = build_module_stubs_from_traces(prev_traces + traces, 0)
@@ -251,7 +265,13 @@ def run(pid, tier, seed):
             for t in traces:
                 if t.func not in order:
                     order.append(t.func)
-            quals = [next(m["qual"] for m in traced if m["func"] is f) for f in order]
+            try:
+                quals = [next(m["qual"] for m in traced if m["func"] is f) for f in order]
+            except StopIteration:
+                strangers = [getattr(f, "__qualname__", repr(f)) for f in order if not any(m["func"] is f for m in traced)]
+                chk.fail("each-once", dict(case, detail="a stored trace decoded to a function object that is not the traced function "
+                                                        "(e.g. a functools.wraps wrapper instead of the function inside)", functions=strangers))
+                continue
             entries = tuple((tuple(Q(p) for p in q.split(".")[:-1]), Q(q.split(".")[-1])) for q in quals)
 
             def shape_of(st):
